@@ -13,7 +13,14 @@ Diagram ==
                 \cup (IF Ev.present /\ Ev.unknown # <<>> THEN {"UnreadableLine"} ELSE {})
      IN bad # {} => Say("VERDICT", Ev.t, bad)
   /\ l' = l + 1 /\ UNCHANGED <<scn, types, fields>>
-Normal == Begin \/ Diagram
+\* beyond C15: the Mermaid diagram of the whole module (the begin event before it carries every application's types)
+Mermaid ==
+  /\ Is("mermaid")
+  /\ LET bad == (IF Ev.present THEN MermaidDataJudge(scn.mtypes, scn.mfields, Ev.classes, Ev.fields, Ev.edges) ELSE {"MermaidNoDiagram"})
+                \cup (IF Ev.present /\ Ev.unknown # <<>> THEN {"MermaidLineIsNoStatement"} ELSE {})
+     IN bad # {} => Say("EXTRA", Ev.t, bad)
+  /\ l' = l + 1 /\ UNCHANGED <<scn, types, fields>>
+Normal == Begin \/ Diagram \/ Mermaid
 Skip == /\ l <= Len(Trace) /\ ~ENABLED Normal /\ Say("REJECT", Ev.t, Ev.e) /\ l' = l + 1 /\ UNCHANGED <<scn, types, fields>>
 TraceInit == l = 1 /\ scn = <<>> /\ types = <<>> /\ fields = <<>>
 TraceSpec == TraceInit /\ [][Normal \/ Skip]_<<l, scn, types, fields>>
